@@ -16,7 +16,7 @@ META = {
     'props': 'Props/C20.v',
     'claimed': True,
     'level_text': ('Proof about a model of the path handling of geophires_x/__main__.py, GEOPHIRESv3.main (after fix 4b78654), '
-                   'Model.__init__, GeophiresXClient and the pathlib operations they use, with the simulation an arbitrary function: 10 '
+                   'Model.__init__, GeophiresXClient and the pathlib operations they use, with the simulation an arbitrary function: 11 '
                    'axiom-free Coq theorems - for every starting directory, installation directory, input and output argument the command '
                    'line writes the report to Path(out).absolute() of the starting directory and the JSON next to it as stem.json (the '
                    'chdir into the package does not leak), relative and absolute forms name the same files, the default is HDR.out/HDR.json '
@@ -224,15 +224,15 @@ def inputs(ctx):
 def part_cli(ctx):
     rnd = ctx.rng
     ok_inputs, special = inputs(ctx)
-    direct = runner.run_many(ctx, [t for _, t in ok_inputs] + [t for _, (t, _) in special if t is not None], want_json=True)
+    direct = runner.run_many(ctx, [t for _, t in ok_inputs] + [t for _, (t, _) in special if t is not None], want_json=True, workers=8)
     plan = []   # (input name, text, sim code, reference run, cwd_rel, out)
     for k, (name, text) in enumerate(ok_inputs):
         ref = direct[k]
         code = 0 if ref['ok'] else (2 if ref['error'] == 'SystemExit(None)' else 1)
         outs = [('d1', o) for o in OUTS['d1']] + [('d1/sub', o) for o in OUTS['d1/sub']]
-        if ctx.quick:    # one full path matrix, then one shape for 11 further inputs; every input goes through client and MC below
+        if ctx.quick:    # one full path matrix, then one shape for 6 further inputs; every input goes through client and MC below
             outs = ([('d1', o) for o in OUTS['d1'][:9]] + [('d1/sub', o) for o in OUTS['d1/sub'][:2]]) if k == 0 else \
-                (rnd.sample(outs, 1) if k < 12 else [])
+                (rnd.sample(outs, 1) if k < 7 else [])
         elif k >= 6:
             outs = rnd.sample(outs, 3)
         for cwd_rel, o in outs:
@@ -365,7 +365,7 @@ def _mc_job(a):
     return outf.read_text()
 
 
-def part_client(ctx, ok_inputs, direct):
+def part_client(ctx, ok_inputs, direct, ex):
     jobs, meta = [], []
     for k, (name, text) in enumerate(ok_inputs):
         jobs.append((text, 'file', str(ctx.scratch), str(fw.SRC)))
@@ -376,7 +376,7 @@ def part_client(ctx, ok_inputs, direct):
     ab = SPECIAL['aborts-sys-exit'][0]
     jobs.append((ab, 'file', str(ctx.scratch), str(fw.SRC)))
     meta.append(('aborts-sys-exit', 'client-from-file', None))
-    with ProcessPoolExecutor(max_workers=16, initializer=runner._init_worker, initargs=(str(ctx.scratch),)) as ex:
+    if True:
         res = list(ex.map(_client_job, jobs))
         mcj = []
         for k, (name, text) in enumerate(ok_inputs):
@@ -411,12 +411,75 @@ def part_client(ctx, ok_inputs, direct):
                         expected=want, observed=row)
 
 
+# ------------------------------------------------------------------------------------------ (e) direct pipeline, relative / missing output
+def _direct_job(a):
+    """GEOPHIRESv3.main() with sys.argv = ['', input, <relative output>] or ['', input], started in cwd.  main() chdir()s into
+    its package directory; that ONE chdir is redirected to a stand-in directory in the scratch area (the model has the package
+    directory as a parameter), so the files a relative / default output name produces can be observed without writing into
+    the repository.  Nothing else is patched."""
+    text, cwd, fake_pkg, out, src = a
+    import geophires_x.GEOPHIRESv3 as g
+    real_pkg = os.path.dirname(os.path.abspath(g.__file__))
+    real_chdir = os.chdir
+    os.chdir = lambda p: real_chdir(fake_pkg if os.path.abspath(p) == real_pkg else p)
+    root = Path(cwd).parent
+    inp = Path(root, 'in.txt')
+    inp.write_text(text)
+    before = {str(p) for p in root.rglob('*') if p.is_file()}
+    real_chdir(cwd)
+    sys.argv = ['', str(inp)] + ([out] if out is not None else [])
+    sys.stdout = open(os.devnull, 'w')
+    err = None
+    try:
+        g.main(enable_geophires_logging_config=False)
+    except BaseException as e:  # noqa
+        err = f'{type(e).__name__}: {e}'[:200]
+    finally:
+        os.chdir = real_chdir
+        real_chdir(str(root))
+    new = sorted({str(p) for p in root.rglob('*') if p.is_file()} - before)
+    return {'error': err, 'new': new, 'reports': {p: Path(p).read_text(encoding='UTF-8', errors='replace') for p in new if p.endswith('.out') or 'noext' in p}}
+
+
+def part_direct_relative(ctx, ok_inputs, direct, ex):
+    cases, jobs = [], []
+    k = next(i for i, r in enumerate(direct) if r['ok'] and r['report'])
+    name, text = ok_inputs[k]
+    for i, out in enumerate([None, 'rel.out', 'sub/r.out', 'a.out/a.out', './noext', '../w/up.out'][:ctx.n(4, 6)]):
+        root = Path(ctx.scratch, f'direct_{i}')
+        for d in ('w', 'pkg/sub', 'pkg/a.out'):
+            (root / d).mkdir(parents=True)
+        cases.append((str(root / 'w'), str(root / 'pkg'), out))
+        jobs.append((text, str(root / 'w'), str(root / 'pkg'), out, str(fw.SRC)))
+    res = list(ex.map(_direct_job, jobs))
+    terms = []
+    for (cwd, fpkg, out), r in zip(cases, res):
+        argv = ['', str(Path(cwd).parent / 'in.txt')] + ([out] if out is not None else [])
+        terms.append(f'direct_check {qconv.coq_bytes(cwd)} {qconv.coq_bytes(fpkg)} {slist(argv)} {slist(r["new"])}')
+        ctx.count('direct-relative', evaluations=1, nontrivial_keys=[out], shapes={shape(out): 1})
+        reps = list(r['reports'].values())
+        if r['error'] or len(reps) != 1 or masked(reps[0]) != masked(direct[k]['report']):
+            ctx.violate('property', 'direct-main:relative-output:report-differs', 'GEOPHIRESv3.main() with a relative / missing output argument '
+                        'fails or writes another report than with an absolute one',
+                        inp={'part': 'direct', 'input': name, 'text': text, 'out': out}, observed={'error': r['error'], 'files': r['new']})
+    failing = fw.kernel_bools(ctx, 'direct', ['Model.CliPaths'], terms, open_scope='string_scope')
+    for i in failing:
+        ctx.violate('corr', 'direct-main:model-disagrees', 'Coq model main_files and GEOPHIRESv3.main() (relative / missing output argument, '
+                    'package directory substituted) create different files',
+                    inp={'part': 'direct', 'input': name, 'text': text, 'out': cases[i][2]}, observed=res[i]['new'])
+    ctx.note('direct pipeline with a relative output argument writes report and JSON relative to the PACKAGE directory; without an '
+             'output argument HDR.out goes to the package directory and HDR.json to the caller\'s directory (C20_direct_pipeline_paths); '
+             'observed with the chdir target substituted by a scratch directory')
+
+
 def correspondence(ctx, proofs_ok=True):
     logging.disable(logging.CRITICAL)
     part_argv(ctx, ctx.n(400, 6000))
     part_json(ctx, ctx.n(400, 6000))
     ok_inputs, direct = part_cli(ctx)
-    part_client(ctx, ok_inputs, direct)
+    with ProcessPoolExecutor(max_workers=8, initializer=runner._init_worker, initargs=(str(ctx.scratch),)) as ex:   # one pool: importing the simulator is the dominant cost
+        part_client(ctx, ok_inputs, direct, ex)
+        part_direct_relative(ctx, ok_inputs, direct, ex)
 
 
 def replay(ctx, data):
@@ -465,6 +528,19 @@ def replay(ctx, data):
             r = ex.submit(_client_job, (inp['text'], 'file' if inp['mode'].endswith('file') else 'params', str(ctx.scratch), str(fw.SRC))).result()
         print('client:', r['ok'], r['error'], '| direct:', ref['ok'], ref['error'])
         bad = r['ok'] != ref['ok'] or (r['ok'] and masked(r['report']) != masked(ref['report']))
+    elif part == 'direct':
+        root = Path(ctx.scratch, 'direct_replay')
+        for d in ('w', 'pkg/sub', 'pkg/a.out'):
+            (root / d).mkdir(parents=True)
+        ref = runner.run_many(ctx, [inp['text']])[0]
+        with ProcessPoolExecutor(max_workers=1, initializer=runner._init_worker, initargs=(str(ctx.scratch),)) as ex:
+            r = ex.submit(_direct_job, (inp['text'], str(root / 'w'), str(root / 'pkg'), inp['out'], str(fw.SRC))).result()
+        argv = ['', str(root / 'in.txt')] + ([inp['out']] if inp['out'] is not None else [])
+        f = fw.kernel_bools(ctx, 'replay', ['Model.CliPaths'], [f'direct_check {qconv.coq_bytes(str(root / "w"))} {qconv.coq_bytes(str(root / "pkg"))} {slist(argv)} {slist(r["new"])}'],
+                            open_scope='string_scope')
+        print('files created:', r['new'], 'error:', r['error'], '| Coq model main_files agrees:', not f)
+        reps = list(r['reports'].values())
+        bad = bool(r['error']) or len(reps) != 1 or masked(reps[0]) != masked(ref['report']) or bool(f)
     elif part == 'mc':
         ref = runner.run_many(ctx, [inp['text']])[0]
         with ProcessPoolExecutor(max_workers=1, initializer=runner._init_worker, initargs=(str(ctx.scratch),)) as ex:
